@@ -8,9 +8,10 @@
 -/
 import OpmVerif.Proofs.DeckWrite
 import OpmVerif.Proofs.RawConsts
+import OpmVerif.Proofs.KwRoundTrip
 
 namespace OpmVerif.Props.C19
-open OpmVerif.Lex OpmVerif.Tok OpmVerif.Scan OpmVerif.DeckWrite
+open OpmVerif.Lex OpmVerif.Tok OpmVerif.Scan OpmVerif.DeckWrite OpmVerif.RawKw
 
 def b (s : String) : Bytes := s.toUTF8.toList
 
@@ -147,5 +148,52 @@ example : parseItems OpmVerif.DeckIO.conv [⟨.int, true, some (.int 0)⟩]
 example : parseItems OpmVerif.DeckIO.conv [⟨.int, true, some (.int 0)⟩]
     (emitToks idFmt true false 0 [(.int 5, .deck), (.int 0, .dflt), (.int 0, .dflt)]) =
       some [[(.int 5, .deck), (.int 0, .dflt), (.int 0, .dflt)]] := by decide +kernel
+
+/-! ### keyword level -/
+
+/-- `parse_write_keyword` for slash-terminated keywords (WELSPECS, COMPDAT, WCONPROD, …):
+the bytes `DeckKeyword::write` produces after the keyword line — one line per record, then
+`/` — go through `clean`, line splitting, the keyword assembly state machine, the
+tokeniser and `ParserKeyword::parse` and come back as exactly the records written (values,
+default flags), with nothing left over.  Every record must emit at least one token: a
+record of defaults only is written as a bare `/` and ends the keyword (finding
+`C19.alldefault_record`; the theorem's hypothesis is exactly what that finding violates). -/
+theorem parse_write_keyword_slash (cv : Conv) (fmt : Bytes → Bytes) (flush : Bool) (recog : Bytes → Bool)
+    (schemas : List (List Item)) (alt : Bool) (rs : List (List Vals))
+    (hrec : ∀ j r, rs[j]? = some r → ∃ items, schemaOf schemas alt j = some items ∧
+      Conf cv fmt items r ∧ r.flatten.length ≤ 2147483647 ∧
+      (pend flush false 0 r.flatten = 0 ∨ r.flatten.length ≤ singlePrefix items))
+    (htok : ∀ r ∈ rs, emitToks fmt flush false 0 r.flatten ≠ [] ∧
+      ∀ t ∈ emitToks fmt flush false 0 r.flatten, LineSafe t ∧ NoNL t) :
+    parseKeywordText cv recog slashKw schemas alt false (writeKeywordBody fmt flush rs) =
+      some (rs.map (·.map (·.map (normP fmt))), []) :=
+  OpmVerif.RawKw.parse_write_keyword_slash cv fmt flush recog schemas alt rs hrec htok
+
+example : writeKeywordBody idFmt false [demoRecord, demoRecord] = b " 'P 1/*' 3* -12 /\n 'P 1/*' 3* -12 /\n/\n" := by
+  decide +kernel
+
+example : parseKeywordText OpmVerif.DeckIO.conv (fun _ => false) slashKw [demoSchema] false false
+    (writeKeywordBody idFmt false [demoRecord, demoRecord]) = some ([demoRecord, demoRecord], []) := by decide +kernel
+
+/-- the tokens of `demoRecord` are safe inside a record line (quote-aware scans for `/` and
+`--` pass over `'P 1/*'`). -/
+example : ∀ t ∈ emitToks idFmt false false 0 demoRecord.flatten, LineSafe t ∧ NoNL t := by
+  have e : emitToks idFmt false false 0 demoRecord.flatten = [b "'P 1/*'", b "3*", b "-12"] := by decide +kernel
+  rw [e]
+  intro t ht
+  simp only [List.mem_cons, List.mem_nil_iff, or_false] at ht
+  rcases ht with rfl | rfl | rfl
+  · have e2 : b "'P 1/*'" = quoted (b "P 1/*") := by decide +kernel
+    refine ⟨⟨?_, by decide +kernel, by decide +kernel, by decide +kernel⟩, by decide +kernel⟩
+    rw [e2]; exact (atomic_quoted (b "P 1/*") (by decide +kernel)).1
+  · exact ⟨⟨Or.inl (by decide +kernel), by decide +kernel, by decide +kernel, by decide +kernel⟩, by decide +kernel⟩
+  · exact ⟨⟨Or.inl (by decide +kernel), by decide +kernel, by decide +kernel, by decide +kernel⟩, by decide +kernel⟩
+
+/-- the excluded shape at keyword level: the middle record holds only defaults, is written
+as a bare `/`, and the re-parsed keyword ends there — the third record is left over. -/
+example : (parseKeywordText OpmVerif.DeckIO.conv (fun _ => false) slashKw [demoSchema] false false
+    (writeKeywordBody idFmt false [demoRecord, [[(.dummy, .empty)], [(.str (b "FIELD"), .dflt)], [(.dummy, .empty)],
+      [(.int 3, .dflt)], [(.dummy, .empty)], [(.str (b "OPEN"), .dflt)], [(.int 0, .dflt)]], demoRecord])).map
+        (fun p => (p.1.length, p.2)) = some (1, [b "'P 1/*' 3* -12 /", b "/"]) := by decide +kernel
 
 end OpmVerif.Props.C19
